@@ -6,6 +6,7 @@ for id in $(cat ../tools/claimed.txt); do
   mods="LokiModel.Props.$id"
   [ -f "LokiModel/$id/Codec.lean" ] && mods="$mods LokiModel.$id.Codec"
   [ -f "LokiModel/$id/Model.lean" ] && mods="$mods LokiModel.$id.Model"
+  [ -f "LokiModel/Findings/$id.lean" ] && mods="$mods LokiModel.Findings.$id"
   lake build $mods || exit 1
 done
 exit 0
